@@ -415,4 +415,15 @@ def rule_counter(ctx):
                f"AvailableConnections.{name} no longer refuses to cross its bound: an unbalanced acquire/release silently moves the limit instead of failing", construct=f"counter:{name}:bound")
 
 
-RULES = [rule_who, rule_finally, rule_pair, rule_manager, rule_timeout_ends, rule_borrowed_r4, rule_counter]
+def rule_borrowed_r6(ctx):
+    from .c03 import rule_drop
+    from .c12 import rule_join
+    ctx.rule("C10.DROP", "a repeated USER gives the old slot back and forgets the old user BEFORE it asks for a new slot: a session re-logging in as the user whose last slot it "
+                         "holds is not refused, and a session that ends during the lookup does not release twice (shared with C03.DROP)")
+    ctx.borrow(rule_drop, {"C03.DROP": "C10.DROP"})
+    ctx.rule("C10.JOIN", "a session that ends always reaches the clean-up that returns its slots: the wait for the reply queue cannot hang on a reply that could not be written "
+                         "(shared with C12.JOIN)")
+    ctx.borrow(rule_join, {"C12.JOIN": "C10.JOIN"})
+
+
+RULES = [rule_who, rule_finally, rule_pair, rule_manager, rule_timeout_ends, rule_borrowed_r4, rule_counter, rule_borrowed_r6]
